@@ -260,3 +260,64 @@ Theorem C19_ig_omega_is_code :
     ig_omega n w rb V T.
 Proof. exact @ig_omega_is_code. Qed.
 Print Assumptions C19_ig_omega_is_code.
+
+(** ** cached fields of PoreProfile (theories/PoreCacheC19.v): any profile type, any solver behaviour, any call sequence *)
+From Coq Require Import List.
+From FeosVerif Require Import PoreCacheC19.
+Import ListNotations.
+
+(** after ANY sequence of solve_inplace (Ok or Err) / update_bulk / specification changes on one PoreProfile object, a stored grand potential / interfacial tension is the one recomputed from the current profile and bulk state *)
+Theorem C19_cache_fresh_always :
+    forall (X B S Val : Type) (omega_of gamma_of : X -> Val) (set_bulk : B -> X -> X) (set_spec : S -> X -> X),
+    (forall (s : S) (x : X), omega_of (set_spec s x) = omega_of x /\ gamma_of (set_spec s x) = gamma_of x) ->
+    forall (ops : list (op X B S)) (p : pore X Val),
+    fresh X Val omega_of gamma_of p ->
+    fresh X Val omega_of gamma_of (run X B S Val omega_of gamma_of set_bulk set_spec p ops).
+Proof. exact @cache_fresh_always. Qed.
+Print Assumptions C19_cache_fresh_always.
+
+(** in particular for every object obtained from initialize *)
+Theorem C19_cache_fresh_from_initialize :
+    forall (X B S Val : Type) (omega_of gamma_of : X -> Val) (set_bulk : B -> X -> X) (set_spec : S -> X -> X),
+    (forall (s : S) (x : X), omega_of (set_spec s x) = omega_of x /\ gamma_of (set_spec s x) = gamma_of x) ->
+    forall (x : X) (ops : list (op X B S)),
+    fresh X Val omega_of gamma_of (run X B S Val omega_of gamma_of set_bulk set_spec (initialize X Val x) ops).
+Proof. exact @cache_fresh_from_initialize. Qed.
+Print Assumptions C19_cache_fresh_from_initialize.
+
+(** and for every intermediate state of the sequence (the drivers read them) *)
+Theorem C19_trace_fresh :
+    forall (X B S Val : Type) (omega_of gamma_of : X -> Val) (set_bulk : B -> X -> X) (set_spec : S -> X -> X),
+    (forall (s : S) (x : X), omega_of (set_spec s x) = omega_of x /\ gamma_of (set_spec s x) = gamma_of x) ->
+    forall (ops : list (op X B S)) (p : pore X Val),
+    fresh X Val omega_of gamma_of p ->
+    Forall (fresh X Val omega_of gamma_of) (trace X B S Val omega_of gamma_of set_bulk set_spec p ops).
+Proof. exact @trace_fresh. Qed.
+Print Assumptions C19_trace_fresh.
+
+(** a successful solve stores both values of the profile it returned *)
+Theorem C19_solve_ok_stores :
+    forall (X B S Val : Type) (omega_of gamma_of : X -> Val) (set_bulk : B -> X -> X) 
+    (set_spec : S -> X -> X) (ops : list (op X B S)) (p : pore X Val) (x : X),
+    let q := run X B S Val omega_of gamma_of set_bulk set_spec p (ops ++ Solve X B S (Some x) :: nil) in
+    prof X Val q = x /\ om X Val q = Some (omega_of x) /\ ga X Val q = Some (gamma_of x).
+Proof. exact @solve_ok_stores. Qed.
+Print Assumptions C19_solve_ok_stores.
+
+(** update_bulk leaves nothing stored *)
+Theorem C19_update_bulk_clears :
+    forall (X B S Val : Type) (omega_of gamma_of : X -> Val) (set_bulk : B -> X -> X) 
+    (set_spec : S -> X -> X) (ops : list (op X B S)) (p : pore X Val) (b : B),
+    let q := run X B S Val omega_of gamma_of set_bulk set_spec p (ops ++ UpdateBulk X B S b :: nil) in
+    om X Val q = None /\ ga X Val q = None.
+Proof. exact @update_bulk_clears. Qed.
+Print Assumptions C19_update_bulk_clears.
+
+(** a failed solve changes nothing *)
+Theorem C19_solve_err_unchanged :
+    forall (X B S Val : Type) (omega_of gamma_of : X -> Val) (set_bulk : B -> X -> X) 
+    (set_spec : S -> X -> X) (ops : list (op X B S)) (p : pore X Val),
+    run X B S Val omega_of gamma_of set_bulk set_spec p (ops ++ Solve X B S None :: nil) =
+    run X B S Val omega_of gamma_of set_bulk set_spec p ops.
+Proof. exact @solve_err_unchanged. Qed.
+Print Assumptions C19_solve_err_unchanged.
